@@ -132,6 +132,28 @@ enum GOp {
     MapWithIndex(u64),
 }
 
+/// The kinds of iterator the `_with` forms are driven with (`via=`); what matters is the
+/// `size_hint` each reports: exact, a loose upper bound, no upper bound, a lying lower bound.
+const ITER_KINDS: [&str; 11] = [
+    "vec",        // vec::IntoIter                      (n, Some(n))
+    "cloned",     // Cloned<slice::Iter>                (n, Some(n))
+    "range_map",  // Map<Range>                         (n, Some(n))
+    "filter",     // Filter over values mixed with junk (0, Some(2n+1))
+    "take_while", // TakeWhile, junk behind a stopper   (0, Some(n+4))
+    "skip_while", // SkipWhile, junk in front           (0, Some(n+2))
+    "from_fn",    // FromFn                             (0, None)
+    "chain",      // Chain<Filter, FromFn>              (0, None)
+    "flat_map",   // FlatMap over Option                (0, Some(n)) or looser
+    "lying_low",  // custom: lower bound n + 5 (more than it yields), no upper bound
+    "dyn",        // &mut dyn Iterator over a filter    (0, Some(2n+1))
+];
+
+/// a deterministic, well spread choice of iterator kind for a generated operation
+fn iter_kind_for(salt: usize, vs: &[u64]) -> &'static str {
+    let h = vs.iter().fold((salt as u64).wrapping_mul(31).wrapping_add(vs.len() as u64), |a, x| a.wrapping_mul(131).wrapping_add(*x));
+    ITER_KINDS[(h % ITER_KINDS.len() as u64) as usize]
+}
+
 fn show_vals(v: &[u64]) -> String {
     if v.is_empty() {
         "-".into()
@@ -144,9 +166,13 @@ impl GOp {
     fn line(&self) -> String {
         match self {
             GOp::InsertRow(p, v) => format!("insert_row {} {}", p, v),
-            GOp::InsertRowWith(p, vs) => format!("insert_row_with {} {}", p, show_vals(vs)),
+            GOp::InsertRowWith(p, vs) => {
+                format!("insert_row_with {} {} via={}", p, show_vals(vs), iter_kind_for(*p, vs))
+            }
             GOp::InsertColumn(p, v) => format!("insert_column {} {}", p, v),
-            GOp::InsertColumnWith(p, vs) => format!("insert_column_with {} {}", p, show_vals(vs)),
+            GOp::InsertColumnWith(p, vs) => {
+                format!("insert_column_with {} {} via={}", p, show_vals(vs), iter_kind_for(p.wrapping_add(4), vs))
+            }
             GOp::RemoveRow(p) => format!("remove_row {}", p),
             GOp::RemoveColumn(p) => format!("remove_column {}", p),
             GOp::Retain(mutating, r, c) => format!(
@@ -221,13 +247,15 @@ fn count_op(g: &mut Gen, op: &GOp, s: Size, ctx: &str) {
     let v = if op.valid(s) { "valid" } else { "invalid" };
     g.count(&format!("{}.{}.{}", ctx, op.name(), v));
     match op {
-        GOp::InsertRowWith(_, vs) => {
+        GOp::InsertRowWith(p, vs) => {
             let k = if vs.len() < s.c { "too_few" } else if vs.len() == s.c { "exact" } else { "surplus" };
             g.count(&format!("{}.insert_row_with.values_{}", ctx, k));
+            g.count(&format!("iter.insert_row_with.{}.{}", iter_kind_for(*p, vs), k));
         }
-        GOp::InsertColumnWith(_, vs) => {
+        GOp::InsertColumnWith(p, vs) => {
             let k = if vs.len() < s.r { "too_few" } else if vs.len() == s.r { "exact" } else { "surplus" };
             g.count(&format!("{}.insert_column_with.values_{}", ctx, k));
+            g.count(&format!("iter.insert_column_with.{}.{}", iter_kind_for(p.wrapping_add(4), vs), k));
         }
         GOp::TransposeMut => {
             g.count(&format!("{}.transpose_mut.{}", ctx, if s.r == s.c { "square" } else { "fallback" }));
@@ -680,7 +708,122 @@ fn gen_constructor_table(g: &mut Gen) {
     }
 }
 
+/// Every iterator kind x {row, column form} x value counts {0, len-1, len, len+1, len+3} x
+/// position {first, last} on sizes 1x1..3x3, each followed by operations on the matrix that
+/// came out (after a panic: the survivor).  The model ignores `via=`.
+fn gen_iterator_kinds(g: &mut Gen) {
+    let mut counter = 50u64;
+    for r in 1..=3usize {
+        for c in 1..=3usize {
+            for kind in ITER_KINDS {
+                for row_form in [true, false] {
+                    let (need, npos) = if row_form { (c, r) } else { (r, c) };
+                    let mut counts = vec![0, need.saturating_sub(1), need, need + 1, need + 3];
+                    counts.dedup();
+                    for n in counts {
+                        for pos in [0, npos] {
+                            let s0 = Size { r, c };
+                            let k = counter as usize;
+                            let l = start_line(g, r, c, k % 3);
+                            g.op(l);
+                            let vs = fresh(&mut counter, n);
+                            let name = if row_form { "insert_row_with" } else { "insert_column_with" };
+                            g.op(format!("{} {} {} via={}", name, pos, show_vals(&vs), kind));
+                            let class = if n < need { "too_few" } else if n == need { "exact" } else { "surplus" };
+                            g.count(&format!("iter.{}.{}.{}", name, kind, class));
+                            let op = if row_form {
+                                GOp::InsertRowWith(pos, vs)
+                            } else {
+                                GOp::InsertColumnWith(pos, vs)
+                            };
+                            let mut s = op.after(s0);
+                            // the survivor is used: a fixed probe of every row and column, then
+                            // two random operations
+                            g.op("transpose_mut".to_string());
+                            s = GOp::TransposeMut.after(s);
+                            g.op(format!("insert_row {} {}", s.r, fresh(&mut counter, 1)[0]));
+                            s = Size { r: s.r + 1, c: s.c };
+                            for _ in 0..2 {
+                                let op = random_op(g, s, &mut counter);
+                                g.op(op.line());
+                                s = op.after(s);
+                            }
+                        }
+                    }
+                }
+            }
+        }
+    }
+}
+
+/// Histories on larger matrices (sides 8..12): removal and insertion near the end, retention
+/// with ranges, the in-place transposition of 8x8 .. 12x12, so that size-gated paths are walked.
+fn gen_large(g: &mut Gen) {
+    let sizes: &[(usize, usize)] = &[(8, 8), (9, 9), (10, 10), (12, 12), (8, 12), (12, 8), (11, 9), (9, 8)];
+    let rounds = if g.thorough { 6 } else { 2 };
+    for round in 0..rounds {
+        for &(r, c) in sizes {
+            let l = start_line(g, r, c, round);
+            g.op(l);
+            g.count(&format!("large.case.{}x{}", r, c));
+            let mut s = Size { r, c };
+            let mut counter = 1000u64;
+            let script: Vec<GOp> = vec![
+                GOp::TransposeMut,
+                GOp::RemoveRow(c - 1),
+                GOp::RemoveColumn(r - 1),
+                GOp::RemoveRow(c - 1),
+                GOp::InsertRow(c - 1, fresh(&mut counter, 1)[0]),
+                GOp::InsertColumnWith(r - 1, fresh(&mut counter, c - 1)),
+                GOp::InsertRowWith(0, fresh(&mut counter, r + 2)),
+                GOp::InsertColumnWith(r, fresh(&mut counter, c - 1)),
+                GOp::InsertColumn(r + 1, fresh(&mut counter, 1)[0]),
+                GOp::Transpose,
+                GOp::Retain(true, Sl::Range(1, r), Sl::Not(Box::new(Sl::Single(c - 2)))),
+                GOp::TransposeMut,
+                GOp::MapMutWithIndex(100),
+                GOp::Retain(false, Sl::Range(0, 8), Sl::Range(0, 8)),
+                GOp::TransposeMut,
+                GOp::RemoveColumn(0),
+                GOp::RemoveRow(7),
+                GOp::Set(6, 6, fresh(&mut counter, 1)[0], false),
+                GOp::MapWithIndex(7),
+            ];
+            for op in script {
+                count_op(g, &op, s, "large");
+                g.op(op.line());
+                s = op.after(s);
+            }
+            // grow back and go on at random without the shrinking bias of `random_op`
+            for _ in 0..12 {
+                let op = match g.rng.below(8) {
+                    0 => GOp::InsertRow(g.rng.below(s.r + 1), fresh(&mut counter, 1)[0]),
+                    1 => GOp::InsertColumn(g.rng.below(s.c + 1), fresh(&mut counter, 1)[0]),
+                    2 => {
+                        let n = pick_count(g, s.c);
+                        GOp::InsertRowWith(s.r, fresh(&mut counter, n))
+                    }
+                    3 => {
+                        let n = pick_count(g, s.r);
+                        GOp::InsertColumnWith(s.c, fresh(&mut counter, n))
+                    }
+                    4 => GOp::TransposeMut,
+                    5 => GOp::RemoveRow(s.r - 1),
+                    6 => GOp::RemoveColumn(pick_index(g, s.c)),
+                    _ => GOp::Retain(true, Sl::Range(0, s.r.max(2) - 1), Sl::All),
+                };
+                count_op(g, &op, s, "large");
+                g.op(op.line());
+                s = op.after(s);
+                g.count(&format!("large.size.side={}", s.r.max(s.c).min(14)));
+            }
+        }
+    }
+}
+
 pub fn gen(g: &mut Gen) {
+    gen_iterator_kinds(g);
+    gen_large(g);
     gen_constructor_table(g);
     gen_constructors(g);
     gen_exhaustive(g);
@@ -775,6 +918,113 @@ fn answer(outcome: Result<(), PanicKind>, m: &Matrix<u64>) -> String {
     }
 }
 
+/// A value that is never a matrix element: the junk the inexact iterators skip or stop at.
+const JUNK: u64 = u64::MAX;
+
+/// An iterator whose `size_hint` claims more elements than it yields (a lower bound that lies)
+/// and no upper bound; `Iterator` implementations are allowed to be wrong about their hint, the
+/// documented precondition of the `_with` forms is about the elements actually supplied.
+struct LyingLow {
+    inner: std::vec::IntoIter<u64>,
+}
+
+impl Iterator for LyingLow {
+    type Item = u64;
+    fn next(&mut self) -> Option<u64> {
+        self.inner.next()
+    }
+    fn size_hint(&self) -> (usize, Option<usize>) {
+        (self.inner.len() + 5, None)
+    }
+}
+
+/// Runs `$body` with `$it` bound to an iterator of kind `$kind` yielding exactly the values
+/// `$vs` in order; every kind is its own iterator type (own instantiation of the generic
+/// method) with its own `size_hint` behaviour.
+macro_rules! with_values_iter {
+    ($kind:expr, $vs:expr, |$it:ident| $body:expr) => {{
+        let vs: Vec<u64> = $vs;
+        let n = vs.len();
+        match $kind {
+            "cloned" => {
+                let $it = vs.iter().cloned();
+                $body
+            }
+            "range_map" => {
+                let $it = (0..n).map(|i| vs[i]);
+                $body
+            }
+            "filter" => {
+                let mut pool = vec![JUNK];
+                for v in &vs {
+                    pool.push(*v);
+                    pool.push(JUNK);
+                }
+                let $it = pool.into_iter().filter(|x| *x != JUNK);
+                $body
+            }
+            "take_while" => {
+                let mut pool = vs.clone();
+                pool.extend_from_slice(&[JUNK, 7, 7, 7]);
+                let $it = pool.into_iter().take_while(|x| *x != JUNK);
+                $body
+            }
+            "skip_while" => {
+                let mut pool = vec![JUNK, JUNK];
+                pool.extend_from_slice(&vs);
+                let $it = pool.into_iter().skip_while(|x| *x == JUNK);
+                $body
+            }
+            "from_fn" => {
+                let mut queue: std::collections::VecDeque<u64> = vs.iter().cloned().collect();
+                let $it = std::iter::from_fn(move || queue.pop_front());
+                $body
+            }
+            "chain" => {
+                let (a, b) = vs.split_at(n / 2);
+                let mut pool = vec![];
+                for v in a {
+                    pool.push(JUNK);
+                    pool.push(*v);
+                }
+                let mut queue: std::collections::VecDeque<u64> = b.iter().cloned().collect();
+                let $it = pool
+                    .into_iter()
+                    .filter(|x| *x != JUNK)
+                    .chain(std::iter::from_fn(move || queue.pop_front()));
+                $body
+            }
+            "flat_map" => {
+                let mut pool = vec![];
+                for v in &vs {
+                    pool.push(Some(*v));
+                    pool.push(None);
+                }
+                let $it = pool.into_iter().flat_map(|x| x);
+                $body
+            }
+            "lying_low" => {
+                let $it = LyingLow { inner: vs.into_iter() };
+                $body
+            }
+            "dyn" => {
+                let mut pool = vec![JUNK];
+                for v in &vs {
+                    pool.push(*v);
+                    pool.push(JUNK);
+                }
+                let mut filtered = pool.into_iter().filter(|x| *x != JUNK);
+                let $it: &mut dyn Iterator<Item = u64> = &mut filtered;
+                $body
+            }
+            _ => {
+                let $it = vs.into_iter();
+                $body
+            }
+        }
+    }};
+}
+
 /// Applies one operation line to `m` (allocating operations replace `*m` by their result).
 pub(crate) fn apply(m: &mut Matrix<u64>, toks: &[&str]) -> Option<Result<(), PanicKind>> {
     let us = |i: usize| toks[i].parse::<usize>().expect("usize");
@@ -785,14 +1035,9 @@ pub(crate) fn apply(m: &mut Matrix<u64>, toks: &[&str]) -> Option<Result<(), Pan
             catch(|| m.insert_row(p, v))
         }
         "insert_row_with" => {
-            // the iterator parameter is generic: an owning vec iterator, a cloning slice
-            // iterator, and a lazily mapped range that could go on beyond the values needed
             let (p, vs) = (us(1), parse_vals(toks[2]));
-            match vs.len() % 3 {
-                0 => catch(|| m.insert_row_with(p, vs.into_iter())),
-                1 => catch(|| m.insert_row_with(p, vs.iter().cloned())),
-                _ => catch(|| m.insert_row_with(p, (0..vs.len()).map(|i| vs[i]))),
-            }
+            let kind = opt_arg("via", toks).unwrap_or("vec");
+            with_values_iter!(kind, vs, |it| catch(|| m.insert_row_with(p, it)))
         }
         "insert_column" => {
             let (p, v) = (us(1), val(2));
@@ -800,11 +1045,8 @@ pub(crate) fn apply(m: &mut Matrix<u64>, toks: &[&str]) -> Option<Result<(), Pan
         }
         "insert_column_with" => {
             let (p, vs) = (us(1), parse_vals(toks[2]));
-            match vs.len() % 3 {
-                0 => catch(|| m.insert_column_with(p, (0..vs.len()).map(|i| vs[i]))),
-                1 => catch(|| m.insert_column_with(p, vs.into_iter())),
-                _ => catch(|| m.insert_column_with(p, vs.iter().cloned())),
-            }
+            let kind = opt_arg("via", toks).unwrap_or("vec");
+            with_values_iter!(kind, vs, |it| catch(|| m.insert_column_with(p, it)))
         }
         "remove_row" => {
             let p = us(1);
